@@ -348,6 +348,7 @@ pub struct Rw<'c> {
     pub binders: BTreeSet<String>,
     pub fn_name: String,
     pub loops: usize,
+    pub g6_sites: usize,          // lock guards found alive across an await (rule G6), also reported by a separate marker function per site
     pub self_to_this: bool,
     pub closures: usize,
     pub lifted_closures: Vec<LiftedClosure>,
@@ -403,7 +404,7 @@ fn has_control_escape(e: &Expr) -> bool {
 }
 
 impl<'c> Rw<'c> {
-    pub fn new(cx: &'c mut Ctx, lifted: bool, binders: BTreeSet<String>, fn_name: String) -> Self { Rw { cx, lifted, binders, lift_prefix: fn_name.replace("::", "__").replace('@', "_"), fn_name, loops: 0, self_to_this: false, closures: 0, lifted_closures: vec![], gen_idents: vec![], typed_ctors: BTreeSet::new(), typed_caps: BTreeSet::new(), into_params: BTreeSet::new(), local_types: Default::default() } }
+    pub fn new(cx: &'c mut Ctx, lifted: bool, binders: BTreeSet<String>, fn_name: String) -> Self { Rw { cx, lifted, binders, lift_prefix: fn_name.replace("::", "__").replace('@', "_"), fn_name, loops: 0, g6_sites: 0, self_to_this: false, closures: 0, lifted_closures: vec![], gen_idents: vec![], typed_ctors: BTreeSet::new(), typed_caps: BTreeSet::new(), into_params: BTreeSet::new(), local_types: Default::default() } }
 
     fn select_to_match(&mut self, m: &syn::Macro) -> Option<Expr> {
         let arms: Arms = match syn::parse2(m.tokens.clone()) { Ok(a) => a, Err(e) => { self.cx.err(format!("outside dialect: select! arms in {}: {}", self.fn_name, e)); return None; } };
@@ -534,7 +535,7 @@ impl<'c> VisitMut for Rw<'c> {
                 let Some(name) = name else { continue; };
                 let mut held_across = false;
                 for j in i + 1..n { let txt = nospace(&b.stmts[j].to_token_stream().to_string()); if txt.starts_with(&format!("drop({})", name)) { break; } if awaits_stmt(&b.stmts[j]) { held_across = true; break; } }
-                if held_across { if let Stmt::Local(l) = &mut b.stmts[i] { if let Some(init) = &mut l.init { let x = (*init.expr).clone(); if !nospace(&x.to_token_stream().to_string()).starts_with("hx_guard_held_across_await(") { init.expr = Box::new(parse_quote!(hx_guard_held_across_await(#x))); self.cx.fire("G6"); } } } }
+                if held_across { if let Stmt::Local(l) = &mut b.stmts[i] { if let Some(init) = &mut l.init { let x = (*init.expr).clone(); if !nospace(&x.to_token_stream().to_string()).starts_with("hx_guard_held_across_await(") { init.expr = Box::new(parse_quote!(hx_guard_held_across_await(#x))); self.cx.fire("G6"); self.g6_sites += 1; } } } }
             }
         }
         let mut kept0: Vec<Stmt> = vec![];
@@ -630,9 +631,9 @@ impl<'c> VisitMut for Rw<'c> {
             fn awaits_expr(x: &Expr) -> bool { struct A(bool); impl<'b> Visit<'b> for A { fn visit_expr_await(&mut self, _: &'b syn::ExprAwait) { self.0 = true; } fn visit_expr_closure(&mut self, _: &'b syn::ExprClosure) {} fn visit_expr_async(&mut self, _: &'b syn::ExprAsync) {} } let mut a = A(false); a.visit_expr(x); a.0 }
             let already = |x: &Expr| nospace(&x.to_token_stream().to_string()).starts_with("hx_guard_held_across_await(");
             match e {
-                Expr::If(i) => { if let Expr::Let(l) = &mut *i.cond { if has_guard(&l.expr) && !already(&l.expr) && (awaits_block(&i.then_branch) || i.else_branch.as_ref().map(|(_, b)| awaits_expr(b)).unwrap_or(false)) { let x = (*l.expr).clone(); l.expr = Box::new(parse_quote!(hx_guard_held_across_await(#x))); self.cx.fire("G6"); } } }
-                Expr::While(wl) => { if let Expr::Let(l) = &mut *wl.cond { if has_guard(&l.expr) && !already(&l.expr) && awaits_block(&wl.body) { let x = (*l.expr).clone(); l.expr = Box::new(parse_quote!(hx_guard_held_across_await(#x))); self.cx.fire("G6"); } } }
-                Expr::Match(m) => { if has_guard(&m.expr) && !already(&m.expr) && m.arms.iter().any(|a| awaits_expr(&a.body)) { let x = (*m.expr).clone(); m.expr = Box::new(parse_quote!(hx_guard_held_across_await(#x))); self.cx.fire("G6"); } }
+                Expr::If(i) => { if let Expr::Let(l) = &mut *i.cond { if has_guard(&l.expr) && !already(&l.expr) && (awaits_block(&i.then_branch) || i.else_branch.as_ref().map(|(_, b)| awaits_expr(b)).unwrap_or(false)) { let x = (*l.expr).clone(); l.expr = Box::new(parse_quote!(hx_guard_held_across_await(#x))); self.cx.fire("G6"); self.g6_sites += 1; } } }
+                Expr::While(wl) => { if let Expr::Let(l) = &mut *wl.cond { if has_guard(&l.expr) && !already(&l.expr) && awaits_block(&wl.body) { let x = (*l.expr).clone(); l.expr = Box::new(parse_quote!(hx_guard_held_across_await(#x))); self.cx.fire("G6"); self.g6_sites += 1; } } }
+                Expr::Match(m) => { if has_guard(&m.expr) && !already(&m.expr) && m.arms.iter().any(|a| awaits_expr(&a.body)) { let x = (*m.expr).clone(); m.expr = Box::new(parse_quote!(hx_guard_held_across_await(#x))); self.cx.fire("G6"); self.g6_sites += 1; } }
                 _ => {}
             }
         }
@@ -658,6 +659,7 @@ impl<'c> VisitMut for Rw<'c> {
                     Err(_) => self.cx.err(format!("outside dialect: macro `matches` in {}", self.fn_name)),
                 }
             }
+            else if m.mac.path.is_ident("vec") { self.cx.fire("M3"); /* `vec![..]` is part of the verifier's dialect: its element expressions are left as they are */ }
             else { self.cx.err(format!("outside dialect: macro `{}` in {}", nospace(&m.mac.path.to_token_stream().to_string()), self.fn_name)); }
         }
         // W1
